@@ -893,7 +893,7 @@ func TestUnknownTypeCodes(t *testing.T) {
 		known[c] = true
 	}
 	sw := pbt.RegisterSweep(pbt.Sweep{Prop: "C04", Name: "unknown-type-codes",
-		Rule: "exhaustive over all 256 value type codes, all 256 step type codes, all 256 service type codes and all 65536 pack type codes followed by 64 zero bytes: a code the registry does not know must make the decoder panic, never return an object; every unknown code is a non-trivial distinct case",
+		Rule: "exhaustive over all 256 value type codes, all 256 step type codes, all 256 service type codes and all 65536 pack type codes followed by 64 zero bytes: a code the registry does not know must make the decoder panic, never return an object; for a code it knows, the object it creates must report that very type code and (packs) no strict prefix of the encoding of the empty pack of that type may decode; every unknown code is a non-trivial distinct case",
 		N:    256*3 + 65536,
 		Run: func(i uint64) (bool, error) {
 			pad := make([]byte, 64)
@@ -907,7 +907,10 @@ func TestUnknownTypeCodes(t *testing.T) {
 				}
 			case i < 512:
 				c := byte(i - 256)
-				if step.CreateStep(c) != nil {
+				if st := step.CreateStep(c); st != nil {
+					if st.GetStepType() != c {
+						return true, fmt.Errorf("step type code %d is decoded into an object that says it is of type %d: the decoded object names a type that is not in the input", c, st.GetStepType())
+					}
 					return false, nil
 				}
 				if !panics(func() { step.ReadStep(wio.NewDataInputX(append([]byte{c}, pad...))) }) {
@@ -923,7 +926,20 @@ func TestUnknownTypeCodes(t *testing.T) {
 				}
 			default:
 				c := int16(uint16(i - 768))
-				if pack.CreatePack(c) != nil {
+				if pk := pack.CreatePack(c); pk != nil {
+					if pk.GetPackType() != c {
+						return true, fmt.Errorf("pack type code %#04x is decoded into an object that says it is of type %#04x (%T): the decoded object names a type that is not in the input", uint16(c), uint16(pk.GetPackType()), pk)
+					}
+					// the registry knows the code: the empty pack of that type encodes, and no strict prefix of that encoding decodes
+					var enc []byte
+					if !panics(func() { enc = append([]byte(nil), pack.ToBytesPack(pk)...) }) {
+						for cut := 0; cut < len(enc); cut++ {
+							if !panics(func() { pack.ToPack(append([]byte(nil), enc[:cut]...)) }) {
+								return true, fmt.Errorf("pack type %#04x: the %d-byte strict prefix of the %d-byte encoding of an empty pack decodes without failure", uint16(c), cut, len(enc))
+							}
+						}
+						return true, nil
+					}
 					return false, nil
 				}
 				if !panics(func() { pack.ToPack(append([]byte{byte(uint16(c) >> 8), byte(c)}, pad...)) }) {
